@@ -347,6 +347,27 @@ def _elem_term(x, ety):
     return ety.lift(x)
 
 
+class _SafeSpec:
+    """loop contract whose callbacks report a structural mismatch with the code as Unsupported instead of crashing"""
+
+    def __init__(self, spec, key):
+        self._s, self._k = spec, key
+        for a in ("slots", "name", "fresh_val"):
+            setattr(self, a, getattr(spec, a))
+        self.using = self._wrap(spec.using) if spec.using else None
+        self.inv = self._wrap(spec.inv)
+        self.step = self._wrap(spec.step) if spec.step else None
+
+    def _wrap(self, f):
+        def g(*a, **k):
+            try:
+                return f(*a, **k)
+            except (KeyError, AttributeError, IndexError, TypeError, AssertionError) as e:
+                raise Unsupported(f"the loop contract for {self._k} does not fit the loop it is attached to ({type(e).__name__}: {e}); "
+                                  f"the loop structure of the function changed")
+        return g
+
+
 class LoopSpec:
     """
     slots:   state the loop may modify (everything else is checked unmodified)
@@ -1310,7 +1331,7 @@ class Ex:
                     continue
             self.exec_block(s.orelse, fr)
             return
-        return self.sym_while(s, fr, spec, key)
+        return self.sym_while(s, fr, _SafeSpec(spec, key), key)
 
     def _loop_state(self, spec, fr):
         out = {}
@@ -1375,6 +1396,7 @@ class Ex:
         spec = self.loop_specs.get(key)
         if spec is None:
             raise Unsupported(f"for loop {key} over a symbolic sequence needs an invariant")
+        spec = _SafeSpec(spec, key)
         name = spec.name or f"{fr.fi.qualname.split('.')[-1]}#loop{ordn}"
         n = it.length
         self.assume(n >= 0)
